@@ -1,5 +1,6 @@
 """C16 - Embedded transformer equals transforming afterwards; variants agree."""
 import copy
+import os
 
 import shapelib as sl
 from lib import coq_list as L, coq_term_str as S, coq_nat as N
@@ -442,6 +443,7 @@ def correspond(ctx):
     for e in errs:
         ctx.violation('correspondence:coq-eval', {'error': e}, False, e[:300])
     chain_stream(ctx)
+    namespaced_stream(ctx)
     g0 = 'start: a B\na: A\nA: "a"\nB: "b"\n'
     seen = {'tr': 0, 'emb': 0}
     for i in bad:
@@ -485,6 +487,115 @@ def correspond(ctx):
     ctx.count('exotic-embedded-inplace', key='F27')
     if bad:
         ctx.violation('embedded-vs-posthoc', wit, True, bad, key='F27:embedded-Transformer_InPlace-callback-gets-Tree')
+
+
+_MODDIRS = {}
+
+
+def _module_dir(modules):
+    """writes the imported grammar modules ({name: text}) to a scratch directory once per process"""
+    import atexit
+    import shutil
+    import tempfile
+    key = tuple(sorted(modules.items()))
+    if key not in _MODDIRS:
+        d = tempfile.mkdtemp(prefix='lv_C16_mod_', dir=os.environ.get('VERIF_SCRATCH', '/var/tmp'))
+        atexit.register(shutil.rmtree, d, True)
+        for name, text in modules.items():
+            with open(os.path.join(d, name + '.lark'), 'w') as f:
+                f.write(text)
+        _MODDIRS[key] = d
+    return _MODDIRS[key]
+
+
+NS_MODULES = {
+    'arith': 'expr: term (PLUS term)*\nterm: NUMBER | NAME | "(" expr ")" | neg\nneg: "-" term\nPLUS: "+"\nNUMBER: /[0-9]+/\nNAME: /[a-z]+/\n',
+    'lists': 'list: "[" [item ("," item)*] "]"\n?item: WORD | list | pair\npair: WORD ":" WORD\nWORD: /[a-z]+/\n',
+}
+NS_GRAMMARS = [
+    # (grammar, texts): rules imported from a module bring their terminals along under the module's (lower-case) prefix
+    ('start: stmt+\nstmt: TARGET "=" expr ";"\n%import arith.expr\nTARGET: /[A-Z]+/\n%ignore " "\n',
+     ['X=1;', 'X = a + 2 ; Y = (b+3)+c ;', 'Z=-4+-(q);']),
+    ('start: expr | list\n%import arith.expr\n%import lists.list\n%ignore " "\n',
+     ['1+2', '[a,b:c,[d]]', '[]', '(x)+y']),
+    ('start: (list ";")+\n%import lists (list, WORD)\n%ignore " "\n',
+     ['[a];', '[a:b,c];[[d]];']),
+]
+
+
+def namespaced_stream(ctx):
+    """Embedded vs post-hoc on grammars whose rule and terminal names carry a module prefix (`arith__NUMBER`,
+    `lists__pair`): callbacks attached to such names - written by hand or produced by merge_transformers - must be applied
+    by the embedded transformer exactly as Transformer.transform applies them. Fixed grammars, every callback subset drawn
+    from the names the loaded grammar really has."""
+    from lark import Lark, Transformer
+    from lark.visitors import merge_transformers
+    rng = ctx.rng
+    for gtext, texts in NS_GRAMMARS:
+        for lexer in ('contextual', 'basic'):
+            kw = dict(parser='lalr', lexer=lexer, import_paths=[_module_dir(NS_MODULES)])
+            plain = Lark(gtext, **kw)
+            names = sorted({r.origin.name for r in plain.rules if not r.origin.name.startswith('_') and '{' not in r.origin.name})
+            termnames = sorted(t.name for t in plain.terminals if not t.name.startswith('__') and t.name not in plain.ignore_tokens)
+            ns_terms = [k for k in termnames if '__' in k]
+            from lark.exceptions import LarkError
+            usable = []
+            for text in texts:
+                try:
+                    plain.parse(text)
+                    usable.append(text)
+                except LarkError:      # e.g. two modules' word terminals collide under the basic lexer
+                    pass
+            texts = usable
+            for text in texts:
+                tree = plain.parse(text)
+                for rep in range(ctx.scale(3, 10)):
+                    # every namespaced terminal gets a callback in the first round, random subsets afterwards
+                    toks = ns_terms if rep == 0 else [k for k in termnames if rng.random() < 0.5]
+                    rules = [n for n in names if rng.random() < 0.5]
+                    variant = rng.choice(['plain', 'inline', 'tree', 'mixed'])
+                    choices = [rng.randrange(3) for _ in range(99)]
+                    mode = rng.choice(['default', 'default', 'kw_true', 'kw_false'])
+                    wit = {'grammar': gtext, 'text': text, 'keep_all_tokens': rng.random() < 0.3, 'maybe_placeholders': True,
+                           'base': rng.choice(['Transformer', 'Transformer', 'Transformer_NonRecursive']), 'variant': variant,
+                           'rules': rules, 'toks': toks, 'choices': choices[:len(rules)], 'mode': mode, 'lexer': lexer,
+                           'modules': NS_MODULES, 'kind': 'namespaced'}
+                    try:
+                        bad = embedded_vs_posthoc(wit)[0]
+                    except Exception as ex:
+                        bad = 'raised %r' % (ex,)
+                    ctx.count('embedded-namespaced', key=(gtext, text, lexer, tuple(rules), tuple(toks), variant, mode),
+                              nontrivial=bool(set(toks) & set(ns_terms)), ns_lexer=lexer, ns_token_callbacks=min(len(toks), 4))
+                    if bad:
+                        ctx.violation('embedded-vs-posthoc', wit, True, bad)
+            # merge_transformers: the library transformer's callbacks are re-exported under the prefix
+            if 'arith__NUMBER' in termnames:
+                class LibT(Transformer):
+                    def NUMBER(self, t):
+                        return ('num', int(t))
+
+                    def NAME(self, t):
+                        return ('name', str(t))
+
+                    def neg(self, ch):
+                        return ('neg', tuple(ch))
+
+                class BaseT(Transformer):
+                    def TARGET(self, t):
+                        return ('target', str(t))
+                for text in texts:
+                    try:
+                        tree = plain.parse(text)
+                        post = merge_transformers(BaseT(), arith=LibT()).transform(tree)
+                        emb = Lark(gtext, transformer=merge_transformers(BaseT(), arith=LibT()), **kw).parse(text)
+                        bad = None if emb == post else 'merge_transformers: embedded gives %r, transforming afterwards gives %r' % (emb, post)
+                    except Exception as ex:
+                        bad = 'merge_transformers: raised %r' % (ex,)
+                    ctx.count('embedded-namespaced', key=(gtext, text, lexer, 'merge_transformers'), nontrivial=True,
+                              ns_lexer=lexer, ns_token_callbacks='merge')
+                    if bad:
+                        ctx.violation('embedded-vs-posthoc', {'grammar': gtext, 'text': text, 'lexer': lexer, 'modules': NS_MODULES,
+                                                              'kind': 'namespaced-merge'}, True, bad)
 
 
 def chain_stream(ctx):
@@ -552,6 +663,8 @@ def embedded_vs_posthoc(w, plain=None, tree=None):
     T = make_T(w['base'], w['rules'], w['toks'], w['variant'], w['choices'] + [0] * 99, mode, w.get('attach', 'def'))
     kw = dict(parser='lalr', keep_all_tokens=w['keep_all_tokens'], maybe_placeholders=w['maybe_placeholders'],
               lexer=w.get('lexer', 'contextual'), propagate_positions=w.get('propagate_positions', False))
+    if w.get('modules'):
+        kw['import_paths'] = [_module_dir(w['modules'])]
     if plain is None:
         plain = Lark(w['grammar'], **kw)
         tree = plain.parse(w['text'])
@@ -581,6 +694,13 @@ def replay(ctx, case):
         except Exception:
             return True
         return False
+    if w.get('kind') == 'namespaced-merge':
+        c2 = type(ctx)(ctx.prop, ctx.tier, ctx.seed)
+        try:
+            namespaced_stream(c2)
+            return any(v['witness'].get('kind') == 'namespaced-merge' for v in c2.violations)
+        finally:
+            c2.cleanup()
     if 'grammar' in w:
         try:
             return embedded_vs_posthoc(w)[0] is not None
